@@ -191,6 +191,8 @@ FEATURES = {
     "condition_is_a_variable": "an if / while condition that is a plain variable (a Boolean or a field element held in it)",
     "return_under_control_flow": "a `return` in a block that is not on every path from the entry",
     "parameter_assigned": "an assignment to a parameter",
+    "constant_operand_next_to_an_unknown_operand": "an operator node one of whose operands carries the constant 0, 1, p - 1, true or false while the other carries no constant",
+    "zero_base_power_with_unknown_exponent": "`0 ** x` with x unknown to the analysis",
     "redeclared_local_with_lookalike_name": "two different variables (name, suffix) whose PRINTED names coincide: a re-declared local `x` (internal suffix k, printed `x_k`) "
                                             "next to a variable whose source name is `x_k`",
     "lookalike_pair_one_constant_one_not": "such a pair where, at an equal SSA version, one variable is assigned a claimed constant and the other is assigned without one",
@@ -323,6 +325,22 @@ def features_of(pre, acc, ssa=None, p=None, src=None):
                         if (n_, s_) == ks[i] and const_at.get((ks[j][0], ks[j][1], ver)) is (not isc):
                             seen.add("lookalike_pair_one_constant_one_not")
     if ssa is not None:
+        def absorbing(y):
+            if y and y[0] == "infix" and isinstance(y[2], list) and isinstance(y[3], list):
+                ka, kb = y[2][-1], y[3][-1]
+                if not (isinstance(ka, list) and isinstance(kb, list) and ka and kb and ka[0] == "k" and kb[0] == "k"):
+                    return
+                for kc, ku, side in ((ka, kb, 0), (kb, ka, 1)):
+                    if kc[1] != "-" and ku[1] == "-":
+                        v = kc[1]
+                        special = v[0] == "b" or (v[0] == "f" and p is not None and int(v[1], 16) % p in (0, 1, p - 1))
+                        if special:
+                            seen.add("constant_operand_next_to_an_unknown_operand")
+                            if y[1] == "pow" and side == 0 and v[0] == "f" and int(v[1], 16) % (p or 1) == 0:
+                                seen.add("zero_base_power_with_unknown_exponent")
+        for b in ssa[4][1:]:
+            for st in b[3]:
+                _walk(st, absorbing)
         for b in ssa[4][1:]:
             for st in b[3]:
                 if st[0] == "decl":
@@ -373,8 +391,16 @@ def valuations(rng, pre, p, n):
             v[nm] = rng.choice(special) if c < 0.6 else (rng.randrange(p) if c < 0.8 else rng.randrange(16))
         vals.append(v)
     if names:
-        vals.append({nm: 0 for nm in names})
-        vals.append({nm: 1 for nm in names})
+        # every definition is run with all names 0, all 1, all p - 1, and with each PARAMETER in turn 0 / 1 / p - 1 next to
+        # random values of the others (an operand the analysis does not know may be exactly the absorbing / neutral element)
+        vals.insert(0, {nm: 0 for nm in names})
+        vals.insert(1, {nm: 1 for nm in names})
+        vals.append({nm: p - 1 for nm in names})
+        for q in params[:3]:
+            for c in (0, 1, p - 1):
+                v = {nm: rng.choice(special) for nm in names}
+                v[q] = c
+                vals.append(v)
     return vals, names, sigs, params
 
 
